@@ -11,6 +11,9 @@ import Ptn.C10.BondAxes
 import Ptn.C10.SvdNetwork
 import Ptn.C10.TruncOrder
 import Ptn.C10.SvdSweep
+import Ptn.C10.SvdOrder
+import Ptn.C10.SvdCover
+import Ptn.C10.BondLocalThm
 /-! Property theorems for C10 (selection rule of the singular-value truncation).  Only property
 theorems and non-vacuity examples live here; helper lemmas are in `Lemmas.lean`, the
 specification vocabulary (`Desc`, `NonNeg`, `survives`, `Fits`, `capMin`, `renormFactor`) in
@@ -807,5 +810,129 @@ example (σ : Asg Nat) :
     σ
 
 end svd_examples
+
+/-! ### `svd_truncation`: the sweep order (builder B37; `SvdOrder.lean`, `SvdCover.lean`)
+
+`update_path = tree.linearise()` (post-order, `Ptn.C17.RTree.postorder`), the loop runs over `update_path[:-1]`, moves
+the centre to the node along `path_from_to` and cuts the bond to the node's parent; the parent is the new centre. -/
+
+section svd_order
+open Ptn.C02 Ptn.C17 Ptn.C17.RTree
+
+theorem svd_sweep_cuts_every_edge (t : RTree) (hwf : t.WF) :
+    ∃ L, svdCutEdges t = some L ∧
+      L.map (·.1) = (postorder t).dropLast ∧
+      L.Nodup ∧ (L.map (·.1)).Nodup ∧
+      (∀ x p, (x, p) ∈ L ↔ (p, x) ∈ edges t) ∧
+      L.Perm ((edges t).map Prod.swap) ∧
+      (∀ a b, t.Adj a b → (a, b) ∈ L ∨ (b, a) ∈ L) := by
+  obtain ⟨hnd, hmem⟩ := svdCutNodes_spec hwf
+  have hsnd := svd37_edges_map_snd.1 t
+  have hpar : ∀ x ∈ svdCutNodes t, ∃ p, svdParent? t x = some p := by
+    intro x hx
+    have hx' := (hmem x).mp hx
+    rw [← hsnd] at hx'
+    obtain ⟨e, he, rfl⟩ := List.mem_map.mp hx'
+    exact ⟨e.1, (svdParent?_eq_some hwf).mpr he⟩
+  obtain ⟨L, hL, hm, he⟩ := svdPairUp_spec t _ hpar
+  have hiff : ∀ x p, (x, p) ∈ L ↔ (p, x) ∈ edges t := by
+    intro x p
+    constructor
+    · intro h; exact (svdParent?_eq_some hwf).mp (he _ h)
+    · intro h
+      have hx : x ∈ svdCutNodes t := (hmem x).mpr (edges_mem.1 t p x h).2
+      rw [← hm] at hx
+      obtain ⟨e, heL, rfl⟩ := List.mem_map.mp hx
+      have h1 := he e heL
+      rw [(svdParent?_eq_some hwf).mpr h] at h1
+      obtain ⟨a, b⟩ := e
+      simp only [Option.some.injEq] at h1
+      subst h1; exact heL
+  have hLnd : L.Nodup := svd37_nodup_of_map (·.1) (hm ▸ hnd)
+  have hEnd : ((edges t).map Prod.swap).Nodup := by
+    apply svd37_nodup_of_map (·.1)
+    rw [List.map_map]
+    have : ((fun x : Nat × Nat => x.1) ∘ Prod.swap) = (·.2) := by funext x; rfl
+    rw [this, hsnd]; exact (svd37_kids_nodup hwf).1
+  refine ⟨L, hL, hm, hLnd, hm ▸ hnd, hiff, ?_, ?_⟩
+  · rw [List.perm_ext_iff_of_nodup hLnd hEnd]
+    intro ⟨x, p⟩
+    rw [hiff]
+    simp only [List.mem_map, Prod.exists, Prod.swap_prod_mk, Prod.mk.injEq]
+    constructor
+    · intro h; exact ⟨p, x, h, rfl, rfl⟩
+    · rintro ⟨a, b, h, rfl, rfl⟩; exact h
+  · intro a b h
+    rcases h with h | h
+    · exact Or.inr ((hiff b a).mpr h)
+    · exact Or.inl ((hiff a b).mpr h)
+
+theorem svd_truncation_all_bonds_le_partial {D : Nat} {t t' : TTN} {es : List TdvpEvent} (rt : RTree) (hwf : rt.WF)
+    (h : SvdSweep D t es t') (hcut : svdCutEdges rt = some (cutPairs es))
+    (hin : ∀ e ∈ t.nodes, ∀ q ∈ t.legPairs e.1, rt.Adj e.1 q.1)
+    (hev : ∀ pr ∈ svdEventPairs es, rt.Adj pr.1 pr.2) :
+    ∀ e ∈ t'.nodes, ∀ q ∈ t'.legPairs e.1, q.2.dim ≤ D := by
+  obtain ⟨L, hL, _, _, _, _, _, hadj⟩ := svd_sweep_cuts_every_edge rt hwf
+  rw [hcut] at hL
+  simp only [Option.some.injEq] at hL
+  intro e _ q hl
+  obtain ⟨k, _⟩ := e; obtain ⟨x, ax⟩ := q
+  apply (svd_sweep_legs h k x ax hl).1
+  rw [hL]
+  apply hadj
+  rcases svd_sweep_leg_origin h k x ax hl with ⟨ax0, l0⟩ | hm | hm
+  · obtain ⟨e, he, rfl⟩ := leg_mem_nodes l0
+    exact hin e he (x, ax0) l0
+  · exact hev _ hm
+  · have := hev _ hm
+    exact this.symm
+theorem svd_sweep_events_along_edges (t : RTree) (hwf : t.WF) (c : Nat) (hc : c ∈ ids t) :
+    ∃ L E, svdCutEdges t = some L ∧ svdSweep t c = some E ∧
+      (∀ e ∈ E, t.Adj e.2.1 e.2.2) ∧ (E.filter (·.1)).map (·.2) = L := by
+  obtain ⟨L, hL, _, _, _, hiff, _, _⟩ := svd_sweep_cuts_every_edge t hwf
+  obtain ⟨E, hE, hadj, hf⟩ := svdSweepEvents_spec hwf L c hc (fun e he => (hiff e.1 e.2).mp he)
+  exact ⟨L, E, hL, by simp [svdSweep, hL, hE], hadj, hf⟩
+
+theorem svd_truncation_sweep_bonds_le_partial {D : Nat} {t t' : TTN} {es : List TdvpEvent} (rt : RTree) (hwf : rt.WF)
+    (c : Nat) (hc : c ∈ ids rt) (h : SvdSweep D t es t') (hsweep : svdSweep rt c = some (svdEventTags es))
+    (hin : ∀ e ∈ t.nodes, ∀ q ∈ t.legPairs e.1, rt.Adj e.1 q.1) :
+    ∀ e ∈ t'.nodes, ∀ q ∈ t'.legPairs e.1, q.2.dim ≤ D := by
+  obtain ⟨L, E, hL, hE, hadj, hf⟩ := svd_sweep_events_along_edges rt hwf c hc
+  rw [hsweep] at hE
+  simp only [Option.some.injEq] at hE
+  subst hE
+  rw [svdEventTags_cuts] at hf
+  apply svd_truncation_all_bonds_le_partial rt hwf h (hf ▸ hL) hin
+  intro pr hpr
+  rw [← svdEventTags_pairs] at hpr
+  obtain ⟨e, he, rfl⟩ := List.mem_map.mp hpr
+  exact hadj e he
+
+def exSvdTree : RTree := .node 1 [.node 2 [.node 4 []], .node 3 []]
+example : exSvdTree.WF := by decide
+example : svdCutEdges exSvdTree = some [(4, 2), (2, 1), (3, 1)] := by decide
+example : svdSweep exSvdTree 3 =
+    some [(false, 3, 1), (false, 1, 2), (false, 2, 4), (true, 4, 2), (true, 2, 1), (false, 1, 3), (true, 3, 1)] := by
+  decide
+
+def exSvdEvents : List TdvpEvent :=
+  [.move 3 1 60 2, .move 1 2 61 3, .move 2 4 62 2, .contractSplit 4 2 63 1, .contractSplit 2 1 64 2,
+   .move 1 3 65 2, .contractSplit 3 1 66 1]
+
+set_option maxRecDepth 16384 in
+example : ∃ t t', TRun TTN.empty buildOps t ∧ SvdSweep 2 t exSvdEvents t' ∧
+    svdSweep exSvdTree 3 = some (svdEventTags exSvdEvents) ∧
+    (∀ e ∈ t.nodes, ∀ q ∈ t.legPairs e.1, exSvdTree.Adj e.1 q.1) ∧
+    t.legPairs 1 = [(2, ⟨100, 3⟩), (3, ⟨101, 2⟩)] :=
+  ⟨_, _, .cons ⟨rfl, rfl⟩ rfl (.cons trivial rfl (.cons trivial rfl (.cons trivial rfl (.nil _)))),
+    .move rfl (by decide +kernel) ⟨⟨101, 2⟩, by decide +kernel, by decide +kernel, by decide⟩
+    (.move rfl (by decide +kernel) ⟨⟨100, 3⟩, by decide +kernel, by decide +kernel, by decide⟩
+    (.move rfl (by decide +kernel) ⟨⟨102, 2⟩, by decide +kernel, by decide +kernel, by decide⟩
+    (.cut rfl (by decide +kernel) (by decide)
+    (.cut rfl (by decide +kernel) (by decide)
+    (.move rfl (by decide +kernel) ⟨⟨1000000, 2⟩, by decide +kernel, by decide +kernel, by decide⟩
+    (.cut rfl (by decide +kernel) (by decide) (.nil _))))))),
+    by decide, by decide +kernel, by decide +kernel⟩
+end svd_order
 
 end Ptn.C10
